@@ -128,6 +128,9 @@ class XT:
         self.rg = rg
         self.leaf = leaf
         self.dtype = dtype
+        self.root = self            # storage owner: views / detach() share the storage of their source (see _alias)
+        self.borrowed = False       # storage owned by the caller or by user code (set by mark_borrowed on harness inputs)
+        self.aliased = False        # some other tensor object shares this storage
 
     # ------------------------------------------------------------ helpers
     @property
@@ -144,6 +147,38 @@ class XT:
         if not STATE['grad']:
             a = _map(el_detach, a)
         return XT(a, rg=rg, leaf=not rg, dtype=self.dtype)
+
+    def _alias(self, t):
+        """`t` is a view of (shares storage with) self: ownership follows the storage."""
+        t.root = self.root
+        self.root.aliased = True
+        return t
+
+    def _inplace(self, name, args, kwargs, engine, cx, lineno):
+        """Tensor.<op>_(...): in-place update.  Ownership (frame) condition: the storage written must be owned by the running
+        computation -- writing into a tensor received from the caller or from user code (or a view / detach() of one) is observable
+        by its owner (a user function may return its argument itself).  Internal aliasing is not modelled: unsupported."""
+        base = getattr(self, 'm_' + name[:-1], None)
+        ops = {'add': lambda x, o, alpha=1: x + (o * alpha if alpha != 1 else o), 'sub': lambda x, o, alpha=1: x - (o * alpha if alpha != 1 else o),
+               'mul': lambda x, o: x * o, 'div': lambda x, o: x / o, 'neg': lambda x: -x, 'zero': lambda x: x * 0,
+               'copy': lambda x, o: o + x * 0}
+        if name[:-1] in ops:
+            val = ops[name[:-1]](self, *args, **kwargs)
+        elif base is not None:
+            val = base(*args, **kwargs)
+        else:
+            raise Unsupported(f'no model for Tensor.{name} (line {lineno})')
+        root = self.root
+        if root.borrowed:
+            # recorded on the engine (not on the path context): the harness may be a bounded execution that collects no path obligations
+            engine.frame_violations.append({'name': f'frame.no-in-place-update-of-a-tensor-owned-by-the-caller(Tensor.{name})@L{lineno}',
+                                            'lineno': lineno, 'what': f'Tensor.{name} writes into the storage of an argument of the enclosing solver step '
+                                                                      '(or a view / detach() of one); a user function may return its argument, so the write is observable'})
+            return val
+        if root.aliased:
+            raise Unsupported(f'in-place Tensor.{name} on an internally aliased tensor: aliasing is not modelled (line {lineno})')
+        self.a, self.rg, self.leaf = val.a, val.rg, val.leaf
+        return self
 
     def _bin(self, o, f, swap=False):
         if isinstance(o, (list, tuple, dict, str)) or o is None:
@@ -236,7 +271,7 @@ class XT:
             r = self.a[key if not isinstance(key, list) else tuple(key)]
         except IndexError:
             raise I.PyExc('IndexError', 'tensor index out of range', lineno)
-        return self._new(_ensure_arr(r))
+        return self._alias(self._new(_ensure_arr(r)))
 
     def __pyvc_setitem__(self, engine, key, v, cx, lineno):
         raise Unsupported('in-place tensor item assignment')
@@ -255,9 +290,11 @@ class XT:
         if name == 'ndim':
             return self.a.ndim
         if name == 'T':
-            return self._new(self.a.T)
+            return self._alias(self._new(self.a.T))
         m = getattr(self, 'm_' + name, None)
         if m is None:
+            if name.endswith('_') and not name.startswith('_'):
+                return I.ExternFunc('Tensor.' + name, lambda *a, **k: self._inplace(name, a, k, engine, cx, lineno))
             raise Unsupported(f'no model for Tensor.{name} (line {lineno})')
         return I.ExternFunc('Tensor.' + name, m)
 
@@ -283,8 +320,8 @@ class XT:
 
     def m_detach(self):
         if STATE['transparent']:
-            return XT(self.a, rg=False, leaf=True, dtype=self.dtype)     # value (and its dependence on the leaves) unchanged
-        return XT(_map(el_detach, self.a), rg=False, leaf=True, dtype=self.dtype)
+            return self._alias(XT(self.a, rg=False, leaf=True, dtype=self.dtype))     # value (and its dependence on the leaves) unchanged
+        return self._alias(XT(_map(el_detach, self.a), rg=False, leaf=True, dtype=self.dtype))
 
     def m_requires_grad_(self, flag=True):
         if flag and not self.rg:
@@ -295,30 +332,30 @@ class XT:
 
     def m_squeeze(self, dim=None):
         if dim is None:
-            return self._new(np.squeeze(self.a))
+            return self._alias(self._new(np.squeeze(self.a)))
         d = dim if dim >= 0 else dim + self.a.ndim
         if d >= self.a.ndim or d < 0:
             raise I.PyExc('IndexError', 'squeeze dim out of range')
         if self.a.shape[d] != 1:
             return self
-        return self._new(np.squeeze(self.a, axis=d))
+        return self._alias(self._new(np.squeeze(self.a, axis=d)))
 
     def m_unsqueeze(self, dim):
         d = dim if dim >= 0 else dim + self.a.ndim + 1
-        return self._new(np.expand_dims(self.a, d))
+        return self._alias(self._new(np.expand_dims(self.a, d)))
 
     def m_transpose(self, d0, d1):
-        return self._new(np.swapaxes(self.a, d0, d1))
+        return self._alias(self._new(np.swapaxes(self.a, d0, d1)))
 
     def m_permute(self, *dims):
         if len(dims) == 1 and isinstance(dims[0], (tuple, list)):
             dims = dims[0]
-        return self._new(np.transpose(self.a, dims))
+        return self._alias(self._new(np.transpose(self.a, dims)))
 
     def m_reshape(self, *shape):
         if len(shape) == 1 and isinstance(shape[0], (tuple, list)):
             shape = tuple(shape[0])
-        return self._new(self.a.reshape(shape))
+        return self._alias(self._new(self.a.reshape(shape)))
 
     m_view = m_reshape
 
@@ -328,7 +365,7 @@ class XT:
         e = end_dim if end_dim >= 0 else end_dim + nd
         shp = self.a.shape
         new = shp[:s] + (int(np.prod(shp[s:e + 1], dtype=int)),) + shp[e + 1:]
-        return self._new(self.a.reshape(new))
+        return self._alias(self._new(self.a.reshape(new)))
 
     def m_sum(self, dim=None, keepdim=False):
         if dim is None:
@@ -354,7 +391,7 @@ class XT:
         if len(shape) == 1 and isinstance(shape[0], (tuple, list)):
             shape = tuple(shape[0])
         shape = tuple(self.a.shape[i - (len(shape) - self.a.ndim)] if s == -1 else s for i, s in enumerate(shape))
-        return self._new(np.broadcast_to(self.a, shape).copy())
+        return self._alias(self._new(np.broadcast_to(self.a, shape).copy()))
 
     def m_sqrt(self):
         return self._new(_map(el_sqrt, self.a))
@@ -375,7 +412,7 @@ class XT:
         return self._new(_map(lambda x: el_max(x, m), self.a))
 
     def m_diagonal(self, offset=0, dim1=0, dim2=1):
-        return self._new(np.diagonal(self.a, offset=offset, axis1=dim1, axis2=dim2))
+        return self._alias(self._new(np.diagonal(self.a, offset=offset, axis1=dim1, axis2=dim2)))
 
     def m_split(self, split_size, dim=0):
         n = self.a.shape[dim]
@@ -389,7 +426,7 @@ class XT:
         for s in sizes:
             idx = [slice(None)] * self.a.ndim
             idx[dim] = slice(pos, pos + s)
-            out.append(self._new(self.a[tuple(idx)]))
+            out.append(self._alias(self._new(self.a[tuple(idx)])))
             pos += s
         return tuple(out)
 
@@ -730,6 +767,9 @@ def t_as_strided(x, size, stride):
 def install(engine):
     """Register the torch model on an Engine."""
     STATE['engine'] = engine
+    engine.borrow_args = lambda q: q.startswith('torchsde._core.methods.') and q.endswith('.step')
+    engine.borrow_enter = _borrow_enter
+    engine.borrow_exit = _borrow_exit
     E = I.ExternFunc
     torch = engine.externs['torch']
     torch.attrs.update({
@@ -774,3 +814,33 @@ def install(engine):
             return prev(eng, obj, name, cx, lineno)
         return r
     engine.hooks['getattr'] = hook
+
+
+def mark_borrowed(*xs):
+    """Harness inputs (arguments of the function under contract) and results of user functions: storage not owned by the function."""
+    for x in xs:
+        if isinstance(x, XT):
+            x.root.borrowed = True
+        elif isinstance(x, (list, tuple)):
+            mark_borrowed(*x)
+    return xs[0] if len(xs) == 1 else xs
+
+
+def _borrow_enter(vals):
+    roots = []
+
+    def visit(v):
+        if isinstance(v, XT):
+            roots.append((v.root, v.root.borrowed))
+            v.root.borrowed = True
+        elif isinstance(v, (list, tuple)):
+            for x in v:
+                visit(x)
+    for v in vals:
+        visit(v)
+    return roots
+
+
+def _borrow_exit(roots):
+    for r, was in reversed(roots):
+        r.borrowed = was
